@@ -1,4 +1,5 @@
 #!/bin/bash
+export MUT_COMMITTED=1   # judge with the committed harness, not a working tree in mid-edit
 # tools/redetect_seeds.sh [<seed-dir-name>...] — re-run the quick check(s) of every stored seeded
 # change against the *current* /repo HEAD in a scratch worktree (MUTDIR, default /root/work/mut3)
 # and record the outcome in seeded/<name>/redetect.json. /repo itself is never touched.
